@@ -69,6 +69,7 @@ def run(spec: StreamSpec, tier: str, seed: int) -> int:
     import random
     for k in range(n):
         programs.append(progs.gen_program(random.Random(rng.getrandbits(64)), spec.cfg))
+    programs = [p + [['collisions']] for p in programs]     # model-only diagnostic used by the R3 matcher
     results = evaluate(spec, programs, ambient)
 
     feats = {}
